@@ -94,7 +94,7 @@ def consistency_free():
     q, qd = A.arr('q', (7,)), A.arr('qd', (6,))
 
     def f(q_, qd_):
-      g = lambda dt: integrator._integrate_q_free(sys.replace(opt=sys.opt.replace(timestep=dt)), q_, qd_)
+      g = lambda dt: integrator._integrate_q_free(sys=sys.replace(opt=sys.opt.replace(timestep=dt)), q=q_, qd=qd_)
       return jax.jvp(g, (jp.zeros(()),), (jp.ones(()),))
     # safe_norm (of the angular velocity; independent of dt) is used through its verified contract (C09/safe_norm/contract_*): the first-order term does not depend on its value
     from verif.contracts import cuts
